@@ -60,6 +60,9 @@ def cases(draw):
         checker["script"] = draw(scripts())
     names = NAMES + (sorted(checker.get("script", {})))
     xs = draw(st.lists(fmt_instances, min_size=3, max_size=4))
+    if draw(st.booleans()):
+        # values that are equal for Python (==, hash) but different JSON values, one after the other
+        xs = xs + draw(st.sampled_from([[1, True, 1.0], [True, 1], [0, False, 0.0], [False, 0], [1.0, 1]]))
     if kind == "scripted":
         for n, sc in checker["script"].items():
             for x in xs:
@@ -177,7 +180,7 @@ def key_nocause(e):
 
 class C12(Prop):
     ID = "C12"
-    QUICK = 1000
+    QUICK = 2200
     THOROUGH = 25000
     RULE = ("case = (draft, mode, checker configuration in {none, FormatChecker(), FormatChecker(formats=subset), the "
             "draft's checker, a checker populated with scripted functions}, instances of every JSON type incl. "
@@ -276,9 +279,10 @@ class C12(Prop):
             res.excluded = "schema-rejected"
             return res
         rest = dict((k, v) for k, v in s.items() if k != "format")
+        # ONE checker object serves every instance of the case in turn (a checker is a long-lived object)
+        fc, sc = build_checker(d, case["checker"])
         for x in case["instances"]:
             res.evals += 1
-            fc, sc = build_checker(d, case["checker"])
             known = name in fc.checkers
             if not known:
                 res.labels.append("unknown-name")
